@@ -26,6 +26,12 @@ def check_workspace(ctx, files, tag):
         ctx.count("workspace_not_resolvable")
         return
     texts = {"file://%s/%s" % (root, n): t for n, t in files.items()}
+    # the binding relation the answers are compared with is the compiler's own; that it is the lexical one is C08, whose
+    # tie (real resolve = Resolve.resolve_module) is run on every module of the workspace as well
+    from . import c08
+    c08.resolve_tie(ctx, [{"mods": texts, "main": u} for u in sorted(texts)])
+    if ctx.violations:
+        return
     srv = lsp.Server(root)
     inp = {"files": files}
     try:
@@ -147,6 +153,9 @@ def check(ctx):
     corpus.append({"main.oal": 'use "lib/types.oal" as t;\nuse "lib/paths.oal";\nlet item = num;\nlet wrap item = { \'v item, \'id t.item };\nres /items on get -> <wrap str>;\nres /boxed on get -> <{ \'b boxed, \'i t.item }>;\n',
                    "lib/types.oal": "let item = str;\n", "lib/paths.oal": 'use "types.oal" as ty;\nuse "../top.oal" as up;\nlet boxed = { \'x ty.item, \'y up.z };\n',
                    "top.oal": "let z = int;\n"})
+    # a rec binder that reuses the name of a parameter, used again after the recursion
+    corpus.append({"main.oal": 'use "mod.oal" as m;\nlet node x = { \'label m.name, \'sub rec x { \'id m.x, \'kids [x] }, \'payload x };\nres /n on get -> <node num>;\n',
+                   "mod.oal": "let name = str;\nlet x = int;\n"})
     n = 120 if ctx.thorough else 10
     wss = corpus + [lspws.gen_workspace(ctx.rng) for _ in range(n)]
     for i, files in enumerate(wss):
